@@ -200,6 +200,14 @@ DrainRounds == (EXP \div PERIOD) + 2
 Drained == DrainN(Quiet(State), DrainRounds)
 Drains == Drained.db = EmptyDb /\ Drained.now > now + EXP
 
+\* ... and, with a usage database, draining writes exactly one usage record for every nameplate and
+\* every mailbox that is stored now (C15's "exactly one per retirement", from every reachable state,
+\* crash leftovers included), and none for anything else
+DrainsUsage ==
+  UsageOn => /\ Len(Drained.udb.unp) = Len(udb.unp) + Cardinality(db.np)
+             /\ Len(Drained.udb.umb) = Len(udb.umb) + Cardinality(db.mb)
+             /\ Len(Drained.udb.ucv) = Len(udb.ucv)
+
 \* observation variables are not part of a state's identity
 View == <<db, udb, now, hid, g>>
 
